@@ -32,6 +32,15 @@ func (node *tagFilterNode) Execute(ctx *ExecutionContext, writer TemplateWriter)
 			if err != nil {
 				return err
 			}
+			if ctx.Autoescape && !param.safe && (param.IsString() || rendersText(param)) {
+				// The body has been rendered (and escaped) already and the result of
+				// the chain is written as it is, so a text parameter has to be
+				// brought into the same escaped form first.
+				param, err = ApplyFilter("escape", param, nil)
+				if err != nil {
+					return err
+				}
+			}
 		} else {
 			param = AsValue(nil)
 		}
